@@ -30,22 +30,23 @@ import (
 
 // Program is one case of the E1 stream.
 type Program struct {
-	Name     string       // unique: "d:<directed id>", "x:<n>", "r:<n>"
-	Neutral  string       // top-level declarations in neutral text; must define func §E()
-	Features []string     // tags computed from the abstract tree
-	Shape    string       // shape hash (ids erased); "" = hash of the neutral text
-	Style    render.Style // import style of the source rendering
-	MaxTape  int          // decision-tape bit bound (0 = default)
-	MaxPaths int          // tape paths explored at most (0 = default)
-	MaxMoves int          // advances of the standard consumer (0 = default 12)
-	Budget   int          // event budget per run (0 = default)
-	Hist     []int        // consumer histories (K values) in addition to the drain; nil = default
-	NoRef    bool         // no reference rendering (C07-only cases that use seq directly)
-	Isolate  bool         // compile in a package of its own from the start (known-finding witnesses)
-	Native   bool         // bystander program: the natively built SOURCE package is the reference (C13)
-	MapOrder bool         // traces are compared as sorted multisets (map iteration order)
-	Expect   string       // "" | "reject-or-equiv" (C12)
-	Imports  []string     // extra std imports needed by the program text
+	Name     string            // unique: "d:<directed id>", "x:<n>", "r:<n>"
+	Neutral  string            // top-level declarations in neutral text; must define func §E()
+	Features []string          // tags computed from the abstract tree
+	Shape    string            // shape hash (ids erased); "" = hash of the neutral text
+	Style    render.Style      // import style of the source rendering
+	MaxTape  int               // decision-tape bit bound (0 = default)
+	MaxPaths int               // tape paths explored at most (0 = default)
+	MaxMoves int               // advances of the standard consumer (0 = default 12)
+	Budget   int               // event budget per run (0 = default)
+	Hist     []int             // consumer histories (K values) in addition to the drain; nil = default
+	NoRef    bool              // no reference rendering (C07-only cases that use seq directly)
+	Isolate  bool              // compile in a package of its own from the start (known-finding witnesses)
+	Native   bool              // bystander program: the natively built SOURCE package is the reference (C13)
+	MapOrder bool              // traces are compared as sorted multisets (map iteration order)
+	Expect   string            // "" | "reject-or-equiv" (C12)
+	Imports  []string          // extra std imports needed by the program text
+	Files    map[string]string // extra data files of the package (e.g. for //go:embed); '§' in names is the program prefix
 	Info     map[string]any
 
 	ID int // assigned by the pipeline
@@ -286,6 +287,10 @@ func importLines(progs []*Outcome) string {
 	sort.Strings(xs)
 	var b strings.Builder
 	for _, i := range xs {
+		if strings.HasPrefix(i, "_") {
+			fmt.Fprintf(&b, "\t_ %q\n", i[1:])
+			continue
+		}
 		fmt.Fprintf(&b, "\t%q\n", i)
 	}
 	return b.String()
@@ -335,6 +340,16 @@ func (p *Pipeline) writeBatch(b *batch) error {
 	regRef.WriteString("}\n")
 	if err := p.SC.WriteFile(filepath.Join("src", b.name, "reg.go"), []byte(reg.String())); err != nil {
 		return err
+	}
+	for _, o := range b.progs {
+		for name, text := range o.Prog.Files {
+			name = strings.ReplaceAll(name, "§", o.Prog.Prefix())
+			for _, kind := range []string{"src", "ref", "out", "s1"} {
+				if err := p.SC.WriteFile(filepath.Join(kind, b.name, name), []byte(text)); err != nil {
+					return err
+				}
+			}
+		}
 	}
 	if err := p.SC.WriteFile(filepath.Join("ref", b.name, "gen.go"), []byte(rf.String())); err != nil {
 		return err
